@@ -119,31 +119,34 @@ def cb_oracle(ops, outs, cap):
             if r != head + 1:
                 V.append(f"put stored {r} after {head}"); return V, Dv
             head = r
+            # a gated consumer that sits in a callback with CallbackWorkerQueue jobs queued behind it has a full queue
+            full = [c for c, k in reg.items() if k["mode"] == "gate" and len(k["jobs"]) - k["credits"] >= cap + 1]
             if out.startswith("blocked"):
                 blocked_put = True
-                # the only listed circumstance: a consumer that sits in a callback with a full queue behind it
-                stuck = [c for c, k in reg.items() if k["mode"] == "gate" and k["due"] - k["credits"] >= cap + 1]
                 for c, k in reg.items():
-                    k["due"] += 1
-                if stuck:
-                    Dv.append((SIG_STALL, f"Put of round {r} did not return within the watchdog: consumer {stuck[0]} has not returned from its callback and {cap} jobs are queued behind it"))
+                    k["jobs"].append(r)
+                if full:
+                    Dv.append((SIG_STALL, f"Put of round {r} did not return within the watchdog: consumer {full[0]} has not returned from its callback and {cap} jobs are queued behind it"))
                 else:
                     V.append(f"Put of round {r} blocked although no consumer has a full queue"); return V, Dv
             else:
                 for c, k in reg.items():
-                    k["due"] += 1
+                    if c in full:
+                        k["overflow"].append(r)   # a non-blocking dispatch: the consumer that fell behind misses this job
+                    else:
+                        k["jobs"].append(r)
         elif f[0] == "add":
             if out == "blocked":
                 k = reg.get(f[1])
                 if blocked_put:
                     Dv.append((SIG_STALL, "AddCallback waits for the write lock behind the blocked Put"))
-                elif k and k["mode"] == "gate" and k["due"] - k["credits"] >= cap + 1:
+                elif k and k["mode"] == "gate" and len(k["jobs"]) - k["credits"] >= cap + 1:
                     Dv.append((SIG_ADD, f"AddCallback({f[1]}) blocks while holding the write lock: the close signal cannot enter the full queue of the consumer it replaces"))
                 else:
                     V.append(f"`{op}` blocked without a listed circumstance"); return V, Dv
-                reg[f[1]] = {"mode": f[2], "first": None, "due": 0, "credits": 0, "pending": True}
+                reg[f[1]] = {"mode": f[2], "first": None, "jobs": [], "overflow": [], "credits": 0, "pending": True}
             elif out == "ok":
-                reg[f[1]] = {"mode": f[2], "first": head + 1, "due": 0, "credits": 0}
+                reg[f[1]] = {"mode": f[2], "first": head + 1, "jobs": [], "overflow": [], "credits": 0}
         elif f[0] == "remove":
             if out == "blocked":
                 if blocked_put:
@@ -173,16 +176,16 @@ def cb_oracle(ops, outs, cap):
             if k["first"] is None:
                 continue
             last = k.get("last", head)
-            due = max(0, last - k["first"] + 1)
-            entered = due if k["mode"] == "fast" else min(due, k["credits"] + 1)
-            want = list(range(k["first"], k["first"] + entered))
+            jobs = k["jobs"]
+            entered = len(jobs) if k["mode"] == "fast" else min(len(jobs), k["credits"] + 1)
+            want = jobs[:entered]
             if blocked_put:
                 # the blocked Put has reached some consumers and not others
                 ok = rounds == want or rounds == want[:-1] or rounds[:-1] == want
             else:
                 ok = rounds == want
             if not ok:
-                V.append(f"consumer {f[1]} ({k['mode']}, registered before round {k['first']}, {k['credits']} callbacks released, store at {last}) got {rounds[:4]}..{rounds[-3:]} ({len(rounds)} rounds), expected exactly {want[:1]}..{want[-1:]} ({len(want)})"); return V, Dv
+                V.append(f"consumer {f[1]} ({k['mode']}, registered before round {k['first']}, {k['credits']} callbacks released, store at {last}) got {rounds[:4]}..{rounds[-3:]} ({len(rounds)} rounds), expected exactly {want[:1]}..{want[-1:]} ({len(want)}; dropped for overflow: {k['overflow']})"); return V, Dv
         elif f[0] == "qlen":
             if out.isdigit() and int(out) > cap:
                 V.append(f"queue of {f[1]} holds {out} > {cap} jobs"); return V, Dv
